@@ -40,7 +40,7 @@ fn rank(p: MotionProfilePiece) -> u8 {
 }
 
 /// phase boundaries read from the derived Debug output (they are private fields)
-fn debug_times(mp: &MotionProfile) -> Option<[i64; 3]> {
+pub fn debug_times(mp: &MotionProfile) -> Option<[i64; 3]> {
     let s = format!("{:?}", mp);
     let mut out = [0i64; 3];
     for (i, key) in ["t1: Time(", "t2: Time(", "t3: Time("].iter().enumerate() {
@@ -79,7 +79,7 @@ fn q(o: Option<Quantity>) -> Option<f32> {
 }
 
 #[derive(Clone, Copy, Debug, PartialEq)]
-struct At {
+pub struct At {
     t: i64,
     piece: u8,
     mode: Option<u8>,
@@ -95,7 +95,7 @@ fn kind_code(p: PositionDerivative) -> u8 {
         PositionDerivative::Acceleration => 3,
     }
 }
-fn sample(mp: &MotionProfile, t: i64) -> At {
+pub fn sample(mp: &MotionProfile, t: i64) -> At {
     let h = <MotionProfile as History<Command, E>>::get(mp, Time(t));
     At {
         t,
@@ -108,7 +108,7 @@ fn sample(mp: &MotionProfile, t: i64) -> At {
     }
 }
 
-fn query_times(ts: [i64; 3]) -> Vec<i64> {
+pub fn query_times(ts: [i64; 3]) -> Vec<i64> {
     let mut v = vec![i64::MIN, i64::MIN + 1, -1_000_000_000_000_000_000, -1, 0, 1, i64::MAX - 1, i64::MAX];
     for &b in &ts {
         for d in [-1i64, 0, 1] {
@@ -509,4 +509,23 @@ pub fn run(ctx: &Ctx, second: bool) -> Vec<Eng> {
         }
     });
     vec![e]
+}
+
+impl At {
+    /// canonical words of one sampled instant for cross-configuration traces (C19)
+    pub fn words(&self) -> Vec<u64> {
+        let c = crate::c19::canon;
+        let o = |x: Option<f32>| x.map(|v| 1 + c(v) as u64).unwrap_or(0);
+        vec![
+            self.piece as u64,
+            self.mode.map(|m| m as u64 + 1).unwrap_or(0),
+            o(self.acc),
+            o(self.vel),
+            o(self.pos),
+            self.hist.map(|h| (h.0 as u64) ^ ((h.1 as u64) << 56) ^ ((c(f32::from_bits(h.2)) as u64) << 8)).unwrap_or(0),
+        ]
+    }
+}
+pub fn spec_build(s: &Spec) -> MotionProfile {
+    s.build()
 }
